@@ -360,7 +360,11 @@ pub fn parse_configuration_specification(
     match parse_component_specification_or_name(ctx, start_token)? {
         ComponentSpecificationOrName::ComponentSpec(spec) => {
             let bind_ind = parse_binding_indication(ctx)?;
-            if let Some(use_token) = ctx.stream.pop_if_kind(Use) {
+            // Only the compound form continues with `use vunit ...; end for;`.
+            // Any other `use` starts a use clause that follows a simple configuration specification.
+            if ctx.stream.next_kinds_are(&[Use, Vunit]) {
+                let use_token = ctx.stream.get_current_token_id();
+                ctx.stream.skip();
                 let vunit_bind_inds =
                     parse_vunit_binding_indication_list_known_keyword(ctx, use_token)?;
                 let end_token = ctx.stream.expect_kind(End)?;
